@@ -76,11 +76,11 @@ fn account(stats: &mut Stats, plan: &Plan, j: &Judged, job: u64) {
         }
     }
     stats.inc(&format!("outcome.{}", outcome));
-    if !j.abi.fired.is_empty() || plan.ops.iter().any(|o| (26..=29).contains(&o[0])) {
+    if !j.abi.fired.is_empty() || plan.ops.iter().any(|o| (26..=29).contains(&o[0]) || o[0] == 32) {
         // signature: where the faults landed (site + payload kind), which schedule-bearing families were present, outcome
         let sites: Vec<String> = j.abi.fired.iter().map(|f| format!("{}:{}", f.1, f.2.name())).collect();
         let has_op = |n: &str| plan.ops.iter().any(|o| OP_NAMES[(o[0] as usize) % OP_NAMES.len()] == n);
-        stats.sig(format!("{}|fut={}{}{}|conn={}|{}", sites.join(","), has_op("spawn") as u8, has_op("cancel") as u8, has_op("fire") as u8, has_op("drop_conn") as u8, outcome));
+        stats.sig(format!("{}|fut={}{}{}|conn={}|{}", sites.join(","), (has_op("spawn") || has_op("spawn_async")) as u8, has_op("cancel") as u8, has_op("fire") as u8, has_op("drop_conn") as u8, outcome));
     }
     let e = stats.counters.entry("log_hash_acc".into()).or_insert(0);
     *e = e.wrapping_mul(0x100000001b3) ^ j.log_hash;
@@ -156,7 +156,7 @@ fn main() {
                 }
             }
         }
-        "facts" => println!("{}", json!({"ops": OP_NAMES})),
+        "facts" => println!("{}", json!({"ops": OP_NAMES.to_vec()})),
         _ => {
             eprintln!("usage: simabi run|replay ...");
             std::process::exit(2);
